@@ -432,7 +432,10 @@ def div_literals(expr, fp_arithmetic=False):
         return sym.Product((-1, div_literals(q, fp_arithmetic=fp_arithmetic)))
 
     if isinstance(expr.numerator, sym.FloatLiteral) or isinstance(expr.denominator, sym.FloatLiteral):
-        if not fp_arithmetic:
+        literal_types = (sym.FloatLiteral, sym.IntLiteral)
+        if not fp_arithmetic or not isinstance(expr.numerator, literal_types) \
+                or not isinstance(expr.denominator, literal_types):
+            # Only a quotient of two literals can be evaluated
             return expr
         return sym.Literal(float(expr.numerator.value) / float(expr.denominator.value))
 
